@@ -4,6 +4,7 @@ import (
 	"encoding/json"
 	"fmt"
 	"time"
+	"unsafe"
 
 	"github.com/getlantern/bytemap"
 	"github.com/getlantern/zenodb/bytetree"
@@ -29,7 +30,8 @@ func walk(t *bytetree.Tree) []trow {
 	return rows
 }
 
-// treeCase: a memstore-like tree built through Update(params), its Copy(), and a group-like
+// treeCase: a memstore-like tree built through Update(params), its Copy() (a deep copy since
+// /repo 63b81da: predicted by treeCopyEff, the live tree must not be aliased), and a group-like
 // second tree fed from the copy's sequences through Update(key, vals, nil, metadata).
 func treeCase(ctx *hk.RunCtx, r *hk.Rng, idx uint64) error {
 	c := &caseCtx{ctx: ctx, idx: idx, op: "tree"}
@@ -92,7 +94,9 @@ func treeCase(ctx *hk.RunCtx, r *hk.Rng, idx uint64) error {
 	rows1 := walk(t1)
 	g := &reg{}
 	nodes := make([]interface{}, len(rows1))
+	liveHdr := make([][]encoding.Sequence, len(rows1)) // the live slice headers as they were
 	for i, rw := range rows1 {
+		liveHdr[i] = append([]encoding.Sequence(nil), rw.data...)
 		cols := make([]interface{}, len(rw.data))
 		for j, s := range rw.data {
 			if s != nil && cap(s) > 0 {
@@ -104,10 +108,13 @@ func treeCase(ctx *hk.RunCtx, r *hk.Rng, idx uint64) error {
 	}
 	g.snapAll()
 
-	// Copy(): the scan's snapshot shares the sequences
+	// Copy(): the scan's snapshot.  Since /repo 63b81da every node gets its own data slice and ONE
+	// fresh byte buffer holding copies of its sequences back to back (cap = len); before that the
+	// copy shared node.data and the sequences with the live tree.
+	nLive := g.next
 	cp := t1.Copy()
 	rows2 := walk(cp)
-	reqCopy := map[string]interface{}{"engine": "heap", "op": "treecopy", "nObj": len(rows1), "nodes": nodes}
+	reqCopy := map[string]interface{}{"engine": "heap", "op": "treecopy", "nObj": len(rows1), "nArr": len(rows1), "n": g.next, "nodes": nodes}
 	groupBy := hk.Pick(r, []string{"", "", "k", "d"})
 	canon := map[string]interface{}{"mode": "tree", "e": su.n.JSON(), "outs": len(outNodes), "inExs": su.inJ, "keys": len(keys), "pts": pts,
 		"res": int64(su.resn), "otherRes": int64(su.otherRes), "asof": tstr(su.asOf), "until": tstr(su.until),
@@ -123,32 +130,97 @@ func treeCase(ctx *hk.RunCtx, r *hk.Rng, idx uint64) error {
 			DataArr int      `json:"dataArr"`
 			Cols    []*mview `json:"cols"`
 		} `json:"nodes"`
+		Allocs []int    `json:"allocs"`
+		Writes [][3]int `json:"writes"`
 	}
 	json.Unmarshal(mo, &mc)
 	if len(rows2) != len(rows1) || len(mc.Nodes) != len(rows1) {
 		c.mismatch(canon, len(rows2), len(mc.Nodes), "Tree.Copy: number of nodes")
 		return nil
 	}
+	// the copy itself must leave the live tree alone
+	if rep := g.changes(mc.Writes); rep.prop != "" {
+		c.prop(canon, rep.prop, "Tree.Copy modified the live tree's sequences")
+	}
+	var snapshot []*kbuf
 	for i, rw := range rows2 {
 		if string(rw.key) != string(rows1[i].key) {
 			c.mismatch(canon, string(rw.key), string(rows1[i].key), "Tree.Copy: walk order / keys")
 			return nil
 		}
-		// node.data is shared: same []Sequence backing array
-		if len(rw.data) > 0 && len(rows1[i].data) > 0 && &rw.data[0] != &rows1[i].data[0] {
-			c.mismatch(canon, "distinct data arrays", "shared data array", "Tree.Copy: node.data")
+		mcols := mc.Nodes[i].Cols
+		if len(rw.data) != len(rows1[i].data) || len(mcols) != len(rw.data) {
+			c.mismatch(canon, len(rw.data), len(mcols), "Tree.Copy: number of columns")
 			return nil
 		}
+		// node.data: a slice of its own
+		if len(rw.data) > 0 && &rw.data[0] == &rows1[i].data[0] {
+			c.mismatch(canon, "shared data array", "own data array", "Tree.Copy: node.data is shared with the live tree")
+			return nil
+		}
+		// every copied sequence: outside every live buffer, at the predicted offset from the
+		// node's first sequence, cap = len
+		var first encoding.Sequence
+		size := 0
 		for j, s := range rw.data {
-			if d, _ := g.geom(s, mc.Nodes[i].Cols[j]); d != "" {
-				c.mismatch(canon, describe(g, s), mc.Nodes[i].Cols[j], "Tree.Copy: column view: "+d)
+			mv := mcols[j]
+			if (s == nil) != (mv == nil) {
+				c.mismatch(canon, describe(g, s), mv, "Tree.Copy: nil-ness of a column")
 				return nil
 			}
-			if s != nil {
-				c.hit("tree:copy-shares-sequence")
+			if s == nil {
+				continue
+			}
+			if kb, _ := g.locate(s); kb != nil {
+				c.mismatch(canon, describe(g, s), mv, "Tree.Copy: model predicts a fresh buffer, the copy's sequence aliases the live tree")
+				return nil
+			}
+			if len(s) != mv.Len || cap(s) != mv.Cap {
+				c.mismatch(canon, describe(g, s), mv, "Tree.Copy: len / cap of a copied sequence")
+				return nil
+			}
+			if cap(s) == 0 {
+				continue
+			}
+			if first == nil {
+				first = s
+				if mv.Off != 0 {
+					c.mismatch(canon, describe(g, s), mv, "Tree.Copy: the node's first sequence is not at offset 0")
+					return nil
+				}
+			} else if addr(s) != addr(first)+uintptr(mv.Off) {
+				c.mismatch(canon, int(addr(s)-addr(first)), mv, "Tree.Copy: offset of a copied sequence inside the node's buffer")
+				return nil
+			}
+			if mv.Off+mv.Len > size {
+				size = mv.Off + mv.Len
+			}
+			c.hit("tree:copy-owns-sequence")
+		}
+		if first != nil {
+			// the sequences lie back to back: [first, first+size) is exactly their union
+			arr := unsafe.Slice(unsafe.SliceData([]byte(first)), size)
+			id := mcols[0].Buf
+			for _, mv := range mcols {
+				if mv != nil {
+					id = mv.Buf
+					break
+				}
+			}
+			if id < nLive || g.byID(id) != nil {
+				c.mismatch(canon, id, nLive, "Tree.Copy: model does not number the node's buffer as fresh")
+				return nil
+			}
+			snapshot = append(snapshot, g.add(id, arr, false, true, fmt.Sprintf("snapshot of key %d", i)))
+		}
+		for j, s := range rw.data {
+			if d, _ := g.geom(s, mcols[j]); d != "" {
+				c.mismatch(canon, describe(g, s), mcols[j], "Tree.Copy: column view: "+d)
+				return nil
 			}
 		}
 	}
+	g.snapAll()
 
 	// group: second tree, fed from the copy
 	t2 := bytetree.New(outEs, su.inEs, su.resn, su.otherRes, su.asOf, su.until, su.stride)
@@ -185,16 +257,21 @@ func treeCase(ctx *hk.RunCtx, r *hk.Rng, idx uint64) error {
 		c.mismatch(canon, fmt.Sprint(panicked), nil, "group-like Update panicked")
 		return nil
 	}
-	// (i) the first tree's sequences: byte for byte
+	// (i) the first tree's sequences: byte for byte, and still the same slices; the snapshot is
+	// only read as well
 	rep := g.changes(nil)
 	if rep.prop != "" {
 		c.prop(canon, rep.prop, "grouping from a Tree.Copy modified the live tree's sequences")
 	}
+	if rep.mismatch != "" {
+		c.mismatch(canon, rep.mismatch, nil, "grouping wrote into the scan's snapshot")
+	}
 	rows1b := walk(t1)
 	for i, rw := range rows1b {
 		for j, s := range rw.data {
-			if d, _ := g.geom(s, mc.Nodes[i].Cols[j]); d != "" {
-				c.prop(canon, describe(g, s), "the live tree's column changed its geometry: "+d)
+			o := liveHdr[i][j]
+			if (s == nil) != (o == nil) || len(s) != len(o) || cap(s) != cap(o) || (cap(s) > 0 && addr(s) != addr(o)) {
+				c.prop(canon, describe(g, s), "the live tree's column changed its geometry")
 			}
 		}
 	}
@@ -221,7 +298,11 @@ func treeCase(ctx *hk.RunCtx, r *hk.Rng, idx uint64) error {
 				got = data[o]
 			}
 			if kb, _ := g.locate(got); kb != nil {
-				c.prop(req, describe(g, got), "the out tree's sequence aliases the live tree's stored data")
+				if kb.protected {
+					c.prop(req, describe(g, got), "the out tree's sequence aliases the live tree's stored data")
+				} else {
+					c.mismatch(req, describe(g, got), m.Out, "the out tree's sequence aliases the scan's snapshot")
+				}
 				continue
 			}
 			for _, st := range m.Steps {
@@ -230,7 +311,7 @@ func treeCase(ctx *hk.RunCtx, r *hk.Rng, idx uint64) error {
 				}
 				for _, w := range st.Eff.Writes {
 					if kb := g.byID(w[0]); kb != nil && w[2] > 0 {
-						c.mismatch(req, nil, st, "model predicts a write into the live tree")
+						c.mismatch(req, nil, st, "model predicts a write into the live tree or the snapshot")
 					}
 				}
 			}
@@ -240,6 +321,27 @@ func treeCase(ctx *hk.RunCtx, r *hk.Rng, idx uint64) error {
 				c.hit("tree:out-column-" + kind)
 			}
 		}
+	}
+	// (iii) the frame the other way: inserts into the live tree after the copy (in-place
+	// UpdateValue of existing periods included) are not visible through the snapshot
+	if len(snapshot) > 0 {
+		g.snapAll()
+		for i := 0; i < 3; i++ {
+			k := r.Intn(len(keys))
+			ts := anchor.Add(time.Duration(r.Range(-6, 2)) * su.otherRes)
+			p := gen.GenPoint(r, fields)
+			t1.Update(keys[k].key, nil, encoding.NewTSParams(ts, bytemap.NewFloat(p.Vals)), keys[k].key)
+		}
+		for _, kb := range snapshot {
+			for x := range kb.arr {
+				if kb.arr[x] != kb.snap[x] {
+					ctx.Res.Disagree(hk.Disagreement{Kind: "property", Case: canon, Impl: fmt.Sprintf("buffer %d (%s) byte %d", kb.id, kb.name, x),
+						Detail: "an insert into the live tree after Copy() is visible through the snapshot", PropertyFails: true, Prop: "C18", Index: idx})
+					break
+				}
+			}
+		}
+		c.hit("tree:live-inserts-after-copy")
 	}
 	c.hit(fmt.Sprintf("tree:groups-%d", len(groupOrder)))
 	if groupBy != "" {
